@@ -24,6 +24,7 @@ def check(ctx: Ctx):
     io.check_dataset_pair(ctx, f"{TR}.DropletTrack._write_hdf_dataset", f"{TR}.DropletTrack._from_hdf_dataset", "DropletTrack")
     io.check_registry(ctx)
     io.check_one_class(ctx)
+    io.check_track_one_layout(ctx)
     io.check_file_modes(ctx)
     io.check_no_cached_state(ctx)
     io.check_writers_propagate(ctx)
@@ -50,7 +51,7 @@ def check(ctx: Ctx):
     ctx.expect("COPYALL", 2)
     io.check_exact_eq(ctx)
     io.check_layouts(ctx)
-    ctx.expect("IOAGREE", 41)
+    ctx.expect("IOAGREE", 42)
     ctx.expect("LAYOUT", 5)
     ctx.trust("h5py / NumPy store and load structured arrays bit-exactly", "a 6-digit zero-padded key preserves order for up to 10^6 members")
     ctx.assume("partial files after an exception in a later member are not analysed")
